@@ -9,7 +9,7 @@ P19 = {
     "composite": [r"[a-z]+[0-9]+", r"[a-z]*[0-9]+", r"[a-z]+[0-9]*", r"[a-z]?[0-9]", r"[a-z]+?[0-9]+", r"[a-z]+[a-z]+", r"\w+[0-9]+", r"[a-z]+[0-9]+[a-z]+", r"[a-z]{2}[0-9]", r"[0-9]+[a-z]*[0-9]", r"[a-z0-9]+[0-9]", r"[a-z]*[a-z]"],
     "compositedfa": [r"[a-z]+[0-9]+", r"\w+[0-9]+", r"[a-z]+[a-z]+", r"[a-z0-9]+[0-9]", r"[a-z]*[0-9]+", r"[0-9]+[a-z]*[0-9]", r"[a-z]+[0-9]+[a-z]+", r"[a-z]?[0-9]"],
     "branch": [r"^(ab|cd)", r"^(a|ab)", r"^(ab|a)", r"^(\d+|x)", r"^(?:\w|@|$)ab", r"^(a*|b)", r"^(?:ab|cd)e", r"^(a|b|)c", r"^([ab]|c)d", r"^(ab|cd|ef)", r"^(ab|\bcd)", r"^(?i:ab|cd)"],
-    "anchoredliteral": [r"^a.*c$", r"^a.+c$", r"^.*c$", r"^a.*[b-d]+c$", r"(?s)^a.*c$", r"(?m)^a.*c$", r"^a.*?c$", r"^a.*c\z", r"^ab.*cd$", r"^a.*\.c$", r"\Aa.*c$", r"^a.*é$"],
+    "anchoredliteral": [r"^a.*c$", r"^a.+c$", r"^.*c$", r"^a.*[b-d]+c$", r"(?s)^a.*c$", r"(?m)^a.*c$", r"^a.*?c$", r"^a.*é$", r"^a.*c\z", r"^ab.*cd$", r"^a.*\.c$", r"\Aa.*c$"],
     "engine": [r".*ab", r".+ab", r".*?ab", r"[^x]*ab", r"(?s).*ab", r".*ab$", r".*(ab|cd)", r".*ab.*", r".+ab.+", r"x.*ab.*y", r"(?m)^.*ab", r"(?m)^/.*\.js", r"\d+ab",
                r"\d+\.\d+", r"(\d+)-(\d+)", r"\d*x", r"ab$", r"(a|b)$", r"\bab$", r"[a-z]+(?:\b-){1,2}e", r"[a-z]+\.tx", r".*\.(tx|lo)", r"\w+@\w+", r"^(ab|cd)", r"^a.*c$", r"[a-z]+[0-9]+", r"[a-z]+", r"(?i)ab|cd", r"a.*b$"],
 }
@@ -26,9 +26,9 @@ LONG19 = {
     "engine": [(r"[a-z]+[0-9]+[a-z]+", "a1-"), (r"[a-z]+\s+[0-9]+", "a1 "), (r"[ab]+[12]+[ab]+[xy]+", "a1x"), (r"[a-z]{2,}[0-9]+", "a1-")],
 }
 # windows for patterns whose interesting matches are longer than the symbolic part
-WIN19 = {r"[a-z]+(?:\b-){1,2}e": [("a", ""), ("a-", "")], r".*ab$": [("", "b")], r"\d+ab": [("1", "")], r"x.*ab.*y": [("x", "y")], r"(?m)^/.*\.js": [("/", "s")], r"\w+@\w+": [("a", "")]}
+WIN19 = {r".*?ab": [("a", ""), ("ab", "")], r"[a-z]+(?:\b-){1,2}e": [("a", ""), ("a-", "")], r".*ab$": [("", "b")], r"\d+ab": [("1", "")], r"x.*ab.*y": [("x", "y")], r"(?m)^/.*\.js": [("/", "s")], r"\w+@\w+": [("a", "")]}
 QUICK = {
-    "charclass": 5, "composite": 6, "compositedfa": 4, "branch": 6, "anchoredliteral": 7, "engine": 21,
+    "charclass": 5, "composite": 6, "compositedfa": 4, "branch": 6, "anchoredliteral": 8, "engine": 21,
 }
 
 
